@@ -173,6 +173,37 @@ Theorem C02_agents_exact_with_setapi_refuted :
 Proof. exact setapi_refutes_exactness. Qed.
 Print Assumptions C02_agents_exact_with_setapi_refuted.
 
+(* remove_all_agents restores full exactness: in the state after ANY history - model.agents possibly thinned out
+   through discard/remove/select(inplace=True) - remove_all_agents() leaves the model with nobody live, every view
+   empty, and the strict invariant (model.agents a permutation of the hard references, ...) in force again *)
+Theorem C02_remove_all_restores_exactness : forall n ops m ms,
+  let w := final (init n) ops in
+  getm (w_models w) m = Some ms ->
+  let w' := remove_all w m in
+  exists ms', getm (w_models w') m = Some ms' /\
+    live m (w_born w') (w_removed w') = [] /\
+    m_hard ms' = [] /\ m_all ms' = [] /\ (forall c l, bt_get c (m_bt ms') = Some l -> l = []) /\
+    minv true (w_born w') (w_removed w') m ms'.
+Proof. intros n ops m ms w. exact (thm_remove_all_restores false w m ms (reachable_inv_weak n ops)). Qed.
+Print Assumptions C02_remove_all_restores_exactness.
+
+(* agent_types (= the keys of agents_by_type), EXACTLY, after any history: the classes ever instantiated for the
+   model, in order of first creation.  Together with C02_by_type_exact: a class whose last agent was removed stays
+   listed, with an empty AgentSet. *)
+Theorem C02_agent_types_exact : forall n ops m ms,
+  getm (w_models (final (init n) ops)) m = Some ms ->
+  map fst (m_bt ms) = classes_ever m (w_born (final (init n) ops)).
+Proof. exact thm_agent_types_exact. Qed.
+Print Assumptions C02_agent_types_exact.
+
+(* "agent_types names every class that has a live agent" (C02_agent_types_cover) - and it may name more: *)
+Theorem C02_agent_types_may_name_class_without_live_agent :
+  exists ops ms, let w := final (init 1) ops in
+    getm (w_models w) 0 = Some ms /\ map fst (m_bt ms) = [3; 1] /\ bt_get 3 (m_bt ms) = Some [] /\
+    live_cls 0 3 (w_born w) (w_removed w) = [] /\ live 0 (w_born w) (w_removed w) = [1].
+Proof. exact agent_types_names_dead_class. Qed.
+Print Assumptions C02_agent_types_may_name_class_without_live_agent.
+
 (* ---------- coexisting models: the projection theorem ---------- *)
 (* For every interleaved history over any number of models (from ANY state w): the final state of model m -
    hard references, model.agents, agents_by_type, id counter - is what m's own events alone make of m's
@@ -253,3 +284,11 @@ Example C02_example_projection :
      EvRemove 1 2; EvRemove 1 2] /\
   setapi_free ex_ops = true.
 Proof. vm_compute. repeat split; reflexivity. Qed.
+
+(* remove_all_agents after an AgentSet-API removal: model 0 had agent 1 discarded from model.agents *)
+Example C02_example_remove_all_restores :
+  let w := final (init 1) [Create 0 0 1; Create 0 1 2; SetDiscard 0 1 false] in
+  (exists ms, getm (w_models w) 0 = Some ms /\ m_all ms = [0] /\ m_hard ms = [0; 1]) /\
+  (exists ms', getm (w_models (remove_all w 0)) 0 = Some ms' /\ m_all ms' = [] /\ m_hard ms' = [] /\
+               map fst (m_bt ms') = [0; 1] /\ classes_ever 0 (w_born w) = [0; 1]).
+Proof. vm_compute. split; eexists; repeat split; reflexivity. Qed.
